@@ -369,3 +369,54 @@ def normalizer_apply(a):
             'rmatvec_1d': np.asarray(op.T.dot(np.array(a['y'], dtype=float))).tolist(),
             'matvec_2d': np.asarray(op.dot(np.array(a['X'], dtype=float))).tolist(),
             'rmatvec_2d': np.asarray(op.T.dot(np.array(a['Y'], dtype=float))).tolist()}
+
+
+def slr_history(a):
+    """A scripted multi-step history on ONE SparseLR object (and on the transposed object it hands out): every result is
+    returned together with the dense oracle computed from plain arrays (truncation of each stored part for an int cast)."""
+    S = np.array(a['S'], dtype=float)
+    xs = [np.array(x, dtype=float) for x, _ in a['lr']]
+    ys = [np.array(y, dtype=float) for _, y in a['lr']]
+    op = SparseLR(sparse.csr_matrix(S), list(zip(xs, ys)))
+    v_r = np.array(a['v_row'], dtype=float)     # length n_row  (for op.T.dot)
+    v_c = np.array(a['v_col'], dtype=float)     # length n_col  (for op.dot)
+    out = []
+
+    def dense():
+        d = S.copy()
+        for x, y in zip(xs, ys):
+            d = d + np.outer(x, y)
+        return d
+    held = None
+    for step in a['steps']:
+        try:
+            if step == 'dot':
+                got, exp = op.dot(v_c), dense().dot(v_c)
+            elif step == 'Tdot':
+                got, exp = op.T.dot(v_r), dense().T.dot(v_r)
+            elif step == 'sum0':
+                got, exp = op.sum(axis=0), dense().sum(axis=0)
+            elif step == 'sum1':
+                got, exp = op.sum(axis=1), dense().sum(axis=1)
+            elif step == 'hold_T':
+                held = op.T
+                got, exp = held.dot(v_r), dense().T.dot(v_r)
+            elif step == 'cast_held_int':
+                if held is None:
+                    continue
+                held.astype(int)         # the transposed object is the caller's now: casting it must not touch `op`
+                got, exp = op.dot(v_c), dense().dot(v_c)
+            elif step in ('astype_int', 'astype_float'):
+                op.astype(int if step == 'astype_int' else float)
+                if step == 'astype_int':
+                    S = np.trunc(S)
+                    xs = [np.trunc(x) for x in xs]
+                    ys = [np.trunc(y) for y in ys]
+                got, exp = op.dot(v_c), dense().dot(v_c)
+            else:
+                raise ValueError(step)
+            out.append({'step': step, 'got': np.asarray(got, dtype=float).ravel().tolist(),
+                        'exp': np.asarray(exp, dtype=float).ravel().tolist()})
+        except Exception as e:  # noqa
+            out.append({'step': step, 'err': type(e).__name__, 'msg': str(e)[:200]})
+    return out
